@@ -11,16 +11,16 @@ open Gen
 
 inductive IntKind where
   | integer | enum
-  deriving DecidableEq, Repr, BEq, Inhabited
+  deriving DecidableEq, Repr, Inhabited
 
 inductive StrKind where
   | octetString | textWithoutLanguage | nameWithoutLanguage | charset | naturalLanguage
   | uri | uriScheme | keyword | mimeMediaType | memberAttrName
-  deriving DecidableEq, Repr, BEq, Inhabited
+  deriving DecidableEq, Repr, Inhabited
 
 inductive LangKind where
   | text | name
-  deriving DecidableEq, Repr, BEq, Inhabited
+  deriving DecidableEq, Repr, Inhabited
 
 inductive Value where
   | int (k : IntKind) (v : UInt32)
